@@ -302,6 +302,8 @@ type ProfileSpec struct {
 	Validations []Validation
 	// level lists; if nil every validation goes to its own Level (default violation)
 	Levels map[string][]string
+	// names listed under a level without an entry under `validations` (legal, ignored); used by the YAML tree emitter of gen_c15
+	Dangling map[string][]string
 }
 
 func compactClass(iri string) string { return "ex." + strings.TrimPrefix(iri, NS) }
